@@ -14,6 +14,7 @@ Local Open Scope Z_scope.
 (* ---- option numbers (coap_option.h) ---- *)
 Definition DP_URI_HOST : Z := 3.
 Definition DP_IF_NONE_MATCH : Z := 5.
+Definition DP_OBSERVE : Z := 6.
 Definition DP_OSCORE : Z := 9.
 Definition DP_URI_PATH : Z := 11.
 Definition DP_CONTENT_FORMAT : Z := 12.
@@ -32,8 +33,9 @@ Definition DP_F_OSCORE_ONLY : Z := 1024.
 Definition DP_F_WELLKNOWN : Z := 2048.     (* COAP_RESOURCE_HANDLE_WELLKNOWN_CORE *)
 
 (* ---- configuration ---- *)
-Record dp_res := mkRes { r_path : bytes; r_mask : Z; r_flags : Z }.
-   (* r_mask: bit (m-1) set <-> a handler is registered for method m (1..7) *)
+Record dp_res := mkRes { r_path : bytes; r_mask : Z; r_flags : Z; r_obs : bool }.
+   (* r_mask: bit (m-1) set <-> a handler is registered for method m (1..7);
+      r_obs: coap_resource_set_get_observable(r, 1) *)
 
 Record dp_cfg := mkCfg {
   c_mpr : bool;                               (* coap_mcast_per_resource() called *)
@@ -385,6 +387,50 @@ Definition dp_finish (cfg : dp_cfg) (mc : bool) (req : msg) (rflags : option Z) 
 Definition dp_fail (cfg : dp_cfg) (mc : bool) (req : msg) (rflags : option Z) (code : Z) : list dp_ev :=
   dp_finish cfg mc req rflags false true (dp_error req code dp_fempty).
 
+(* coap_insert_option / coap_add_option on the response under construction: the option goes
+   after the last option with a number <= n; a second instance of a non-repeatable number equal
+   to the highest number present is refused *)
+Fixpoint dp_insert (n : Z) (v : bytes) (l : list opt) : list opt :=
+  match l with
+  | [] => [(n, v)]
+  | (k, w) :: t => if k <=? n then (k, w) :: dp_insert n v t else (n, v) :: (k, w) :: t
+  end.
+Definition dp_max_opt (l : list opt) : Z := fold_left (fun m o => Z.max m (fst o)) l 0.
+Definition dp_add_opt (l : list opt) (o : opt) : list opt :=
+  if (fst o =? dp_max_opt l) && negb (dp_repeatable (fst o)) then l
+  else dp_insert (fst o) (snd o) l.
+
+(* the Observe option of a GET / FETCH on an observable resource (RFC 7641): what
+   handle_request() does with it before and after the handler *)
+Inductive dp_obs := ObsNone | ObsRegister | ObsOther | ObsBlocked.
+Definition dp_observe (t : dp_target) (req : msg) : dp_obs :=
+  match t with
+  | TRes r =>
+      if r_obs r && ((m_code req =? 1) || (m_code req =? 5)) then
+        match dp_find DP_OBSERVE (m_opts req) with
+        | Some v =>
+            if dp_decode v =? 0 then
+              (* registration: a Block2 / Q-Block2 option makes it block-wise business *)
+              if dp_has DP_BLOCK2 (m_opts req) || dp_has DP_Q_BLOCK2 (m_opts req) then ObsBlocked
+              else ObsRegister
+            else ObsOther
+        | None => ObsNone
+        end
+      else ObsNone
+  | _ => ObsNone
+  end.
+
+(* the options of the response after the handler has run: a new observer makes the response
+   start with Observe = resource->observe (2 as long as nothing was notified), the handler's
+   coap_add_option() calls add to that; Observe does not stay on anything but a 2.xx *)
+Definition dp_resp_opts (obs : dp_obs) (code : Z) (hopts : list opt) : list opt :=
+  let pre := match obs with ObsRegister => [(DP_OBSERVE, [2])] | _ => [] end in
+  let ropts := fold_left dp_add_opt hopts pre in
+  match obs with
+  | ObsNone => ropts
+  | _ => if nr_class code =? 2 then ropts else dp_remove1 DP_OBSERVE ropts
+  end.
+
 (* the request handler proper and what becomes of its response.  [req] is the request PDU as
    it is at that point (options already edited), [t] the selected resource. *)
 Definition dp_invoke (cfg : dp_cfg) (h : dp_hreq -> dp_hresp) (mc : bool) (req : msg)
@@ -400,14 +446,19 @@ Definition dp_invoke (cfg : dp_cfg) (h : dp_hreq -> dp_hresp) (mc : bool) (req :
       else dp_finish cfg mc req rf false false
              (mkMsg rty 69 (m_mid req) (m_token req) [(DP_CONTENT_FORMAT, [40])] (c_wk cfg query))
   | _ =>
-      let early := match t with TProxy _ _ => m_type req =? NR_CON | _ => false end in
-      let i := mkHreq (dp_target_rid t) (m_code req) req query in
-      let r := h i in
-      (if early then [dp_eack req] else []) ++ EvH i ::
-      (if dp_bad_class (hr_code r) then []
-       else if hr_code r =? 168 then [EvSkip]      (* 5.08 set by a handler: proxy business *)
-       else dp_finish cfg mc req rf early false
-              (mkMsg rty (hr_code r) (m_mid req) (m_token req) (hr_opts r) (hr_payload r)))
+      match dp_observe t req with
+      | ObsBlocked => [EvSkip]
+      | obs =>
+          let early := match t with TProxy _ _ => m_type req =? NR_CON | _ => false end in
+          let i := mkHreq (dp_target_rid t) (m_code req) req query in
+          let r := h i in
+          let ropts' := dp_resp_opts obs (hr_code r) (hr_opts r) in
+          (if early then [dp_eack req] else []) ++ EvH i ::
+          (if dp_bad_class (hr_code r) then []
+           else if hr_code r =? 168 then [EvSkip]      (* 5.08 set by a handler: proxy business *)
+           else dp_finish cfg mc req rf early false
+                  (mkMsg rty (hr_code r) (m_mid req) (m_token req) ropts' (hr_payload r)))
+      end
   end.
 
 (* from the resource found to the end *)
